@@ -28,7 +28,7 @@ func (g *genState) do(format string, a ...interface{}) []string {
 	op := strings.Fields(line)
 	g.x.hist += strings.Join(op, " ") + "\n"
 	res := g.x.run(op)
-	g.ops = append(g.ops, line+" ; "+res)
+	g.ops = append(g.ops, record(op, res, g.x.answer(res)))
 	return strings.Fields(res)
 }
 
